@@ -82,7 +82,10 @@ THEOREMS = {
         "modules": ["Abnf.Theorems.C09", "Abnf.Theorems.C11"],
         "theorems": ["Abnf.C09.bundled_wellformed", "Abnf.C09.bundled_closed", "Abnf.C09.bundled_rule_total_and_sound",
                      "Abnf.Obl.Bundled.bundled_wf", "Abnf.Obl.Bundled.bundled_closed", "Abnf.Obl.Bundled.bundled_no_prose",
-                     "Abnf.wfFast_sound", "Abnf.closedFast_sound", "Abnf.C11.first_match"],
+                     "Abnf.wfFast_sound", "Abnf.closedFast_sound", "Abnf.C11.first_match",
+                     "Abnf.sub_sound", "Abnf.equiv_pairsF", "Abnf.RTree.lookup_eq", "Abnf.maskT_sound", "Abnf.C09.tree_wf", "Abnf.C09.ref_tree_wf",
+                     "Abnf.C09.pairs_cover", "Abnf.C09.fwd_all", "Abnf.C09.bwd_all", "Abnf.C09.compiled_equiv_text",
+                     "Abnf.C09.flags_as_documented", "Abnf.C09.plain_reach", "Abnf.C09.bundled_engine_exact_wrt_text"],
     },
     "C15": {
         "modules": ["Abnf.Theorems.C15", "Abnf.Theorems.C09"],
